@@ -3,6 +3,7 @@ package rules
 import (
 	"fmt"
 	"go/token"
+	"strings"
 
 	"golang.org/x/tools/go/ssa"
 
@@ -223,7 +224,7 @@ func readBeforeJoin(fn *ssa.Function, v *ssa.Alloc, g *ssa.Go) ssa.Instruction {
 	core.EachInstr(fn, func(b *ssa.BasicBlock, i int, x ssa.Instruction) {
 		switch y := x.(type) {
 		case *ssa.Call:
-			if core.CalleeName(&y.Call) == "(*sync.WaitGroup).Wait" {
+			if core.CalleeName(&y.Call) == "(*sync.WaitGroup).Wait" || waitsOnAllPaths(y.Call.StaticCallee()) {
 				joins = append(joins, x)
 			}
 		case *ssa.UnOp:
@@ -256,4 +257,38 @@ func readBeforeJoin(fn *ssa.Function, v *ssa.Alloc, g *ssa.Go) ssa.Instruction {
 		}
 	}
 	return bad
+}
+
+// waitsOnAllPaths reports whether callee (a helper such as func (c *op) wait() { c.wg.Wait() }) calls
+// WaitGroup.Wait on every path to a return.
+func waitsOnAllPaths(callee *ssa.Function) bool {
+	if callee == nil || callee.Blocks == nil || callee.Pkg == nil || !strings.HasPrefix(callee.Pkg.Pkg.Path(), core.Module) {
+		return false
+	}
+	var waits []ssa.Instruction
+	core.EachInstr(callee, func(_ *ssa.BasicBlock, _ int, x ssa.Instruction) {
+		if c, ok := x.(*ssa.Call); ok && core.CalleeName(&c.Call) == "(*sync.WaitGroup).Wait" {
+			waits = append(waits, x)
+		}
+	})
+	if len(waits) == 0 {
+		return false
+	}
+	all := true
+	core.EachInstr(callee, func(b *ssa.BasicBlock, _ int, x ssa.Instruction) {
+		r, ok := x.(*ssa.Return)
+		if !ok || b == callee.Recover {
+			return
+		}
+		dom := false
+		for _, w := range waits {
+			if core.InstrDominates(w, r) {
+				dom = true
+			}
+		}
+		if !dom {
+			all = false
+		}
+	})
+	return all
 }
